@@ -383,7 +383,7 @@ def run(ctx):
     stats = vlib.Stats()
     DEEP[0] = not ctx.quick
     avoid = set(known_shapes(ctx))
-    nsh, per, per_names = ctx.pick((16, 3, 2), (16, 40, 24))
+    nsh, per, per_names = ctx.pick((16, 3, 2), (16, 14, 6))
     total = vlib.run_shards(shard, nsh, seed=ctx.seed, n=per, n_names=per_names, avoid=avoid)
     cases = total.extra.pop("_cases", [])
     t_gen = ctx.elapsed()
